@@ -15,6 +15,11 @@ CLAIMED = {
    note='Trusted: Lean kernel + standard axioms; hand-written model incl. Rust integer-parser semantics (parseUnsigned) and rkyv little-endian layout, both tied by the correspondence run; the SQLite column path reuses the same FromStr.',
    technique='Lean 4 proof (round-trip / order / totality theorems) + model/implementation correspondence check',
    ref='§8 C10'),
+ 'C04': dict(
+   text='Lean 4 theorems about the executable model of insert_with_source/delete_with_source/will_apply (any forgiveness F, any number of sources): every accepted operation is exactly one LWW join on its key (refinement step), hence by induction any arrival order of any operation list leaves the LWW record of every key; the per-origin window condition implies acceptance for every permutation; return value <-> record changed; will_apply = return value. Negation witness for the pinned acceptance rule (D1). Tied to the code by differential execution incl. exhaustive small universes and all permutations of small multisets, with the Lean LWW function as oracle.',
+   note='Trusted: Lean kernel + standard axioms; hand-written model of orswot.rs (BTreeMap/HashMap as finite maps) tied by the correspondence run; stamps valid and after the first 4 ms of 2023; FORGIVENESS_PERIOD of a non-test build.',
+   technique='Lean 4 proof (step refinement to an LWW join-semilattice + induction over operation lists) + model/implementation correspondence check',
+   ref='§8 C04'),
 }
 NA_REASON = 'check not built yet (work in progress; see DESIGN.md section 8)'
 
